@@ -112,27 +112,33 @@ def run(rep, tier, root=None):
             rep.unknown("T1.lag-definition", f.fq, "lag loop is not a range() loop", f.where())
         else:
             fo = ix.func(om.name, "sf_value")
-            # lag = index * step must be the loop variable
-            lag = idx * step if isinstance(idx, Rat) else None
-            rep.check(lag is not None and lag.equals(loopvar), "T1.lag-index", f.fq + ": sf[j] holds lag j*step",
-                      "value for lag %s is stored at index %s (index*step = %s)" % (nf(loopvar), nf(idx), nf(lag)), "%s:%d" % (f.module.relpath, lineno))
-            want = IO.returns(fo, [phase, loopvar])[0][1]
-            # mean(x) == sum(x)/x.size == sum(x)/(n0*n1): one normal form for the spellings of an average (phase is 2-D)
+            # parametrise the loop by its trip counter t: loop variable = lo + t*step_of_range, t = 0, 1, ...
+            t = Rat.sym("t", ("int", "loopvar"))
+            par = rng.lo + t * rng.step
+            sub = lambda v: _exact_div(v.subst(lambda a: par if a == lv else None)) if isinstance(v, Rat) else v
+            idx_t, val_t = sub(idx), sub(val)
+            # T1: the value stored at index k is the mean squared difference at a shift of k*step pixels
+            shift = idx_t * step if isinstance(idx_t, Rat) else None
+            want = IO.returns(fo, [phase, shift])[0][1] if shift is not None else None
             from ..elem import expand_means
-            val = expand_means(val, {"phase": 2})
-            want = expand_means(want, {"phase": 2})
-            check_equal(rep, "T1.lag-definition", f.fq + ": mean((phase[:-i] - phase[i:])**2)", val, want,
-                        "%s:%d" % (f.module.relpath, lineno), what="stored value")
+            val_e = expand_means(val_t, {"phase": 2}) if isinstance(val_t, Rat) else val_t
+            want_e = expand_means(want, {"phase": 2}) if isinstance(want, Rat) else want
+            rep.check(isinstance(idx_t, Rat) and not has_unknown(idx_t) and affine_in(idx_t, t.single_atom()) is not None, "T1.lag-index",
+                      f.fq + ": sf[k] is written at an index affine in the trip count", "stored at index %s" % nf(idx_t), "%s:%d" % (f.module.relpath, lineno))
+            check_equal(rep, "T1.lag-definition", f.fq + ": sf[k] = mean((phase[:-k*step] - phase[k*step:])**2)", val_e, want_e,
+                        "%s:%d" % (f.module.relpath, lineno), what="value stored at index %s" % nf(idx_t, 40))
             check_degree(rep, "T3.quadratic", f.fq + " ~ phase^2", val, "phase", Fr(2), f.where(), "structure function value")
-            # T2 coverage of the returned array
+            # T2 coverage of the returned array (in terms of the trip counter)
             ret = rets[0][1]
             alloc = _allocation(ret)
+            trips = _exact_div((rng.hi - rng.lo) / rng.step)
+            trng = RangeVal(Rat.const(0), trips, Rat.const(1))
             if alloc is None:
                 rep.unknown("T2.allocation-coverage", f.fq, "cannot find the allocation of the returned array in %s" % nf(ret, 120), f.where())
             else:
                 kind, extent_node = alloc
                 extent = _alloc_extent(f, I, phase, nb, step)
-                ok, why = coverage(idx, lv, rng, extent) if extent is not None else (None, "extent not found")
+                ok, why = coverage(idx_t, t.single_atom(), trng, extent) if extent is not None else (None, "extent not found")
                 if kind == "uninit":
                     if ok is True:
                         rep.ok("T2.allocation-coverage", f.fq + ": every element of numpy.empty() result written", why)
@@ -144,11 +150,12 @@ def run(rep, tier, root=None):
                         rep.unknown("T2.allocation-coverage", f.fq, why, f.where())
                 elif kind == "zero":
                     # zero-initialised: unwritten elements hold 0, which is the definition's value at lag 0 only
-                    ab = affine_in(idx, lv)
-                    first = (ab[0] * rng.lo + ab[1]) if ab else None
-                    good = first is not None and (first.equals(Rat.const(1)) or first.equals(Rat.const(0)))
-                    rep.check(good, "T2.allocation-coverage", f.fq + ": zero-initialised, first written lag index <= 1",
-                              "first written index is %s: lags below it silently read 0" % nf(first), f.where(),
+                    ab = affine_in(idx_t, t.single_atom()) if isinstance(idx_t, Rat) else None
+                    first = ab[1] if ab else None
+                    good = first is not None and (first.equals(Rat.const(1)) or first.equals(Rat.const(0))) and ab[0].equals(Rat.const(1))
+                    rep.check(good, "T2.allocation-coverage", f.fq + ": zero-initialised, first written lag index <= 1, every following index once",
+                              "first written index is %s, advancing by %s per iteration: lags not written silently read 0"
+                              % (nf(first), nf(ab[0]) if ab else None), f.where(),
                               note="sf[0] = 0 by initialisation (mean squared difference at lag 0 is 0)")
                 else:
                     rep.unknown("T2.allocation-coverage", f.fq, "allocation kind %s" % kind, f.where())
@@ -204,6 +211,26 @@ def _slice_upper(v):
             if isinstance(it, tuple) and it and it[0] == "slice" and isinstance(it[2], Rat):
                 return it[2]
     return None
+
+
+def _exact_div(v):
+    """floordiv(a, b) -> a / b where the quotient is a polynomial with integer coefficients in integer symbols
+    (exact division: the floor of an integer is itself)"""
+    from .c18 import is_int_valued
+    if not isinstance(v, Rat):
+        return v
+
+    def f(a):
+        if isinstance(a, Fn) and a.name in ("floordiv",) and len(a.args) == 2 and all(isinstance(x, Rat) for x in a.args):
+            q = _exact_div(a.args[0]) / _exact_div(a.args[1])
+            if is_int_valued(q):
+                return q
+        if isinstance(a, Fn) and a.name in ("int", "floor") and len(a.args) == 1 and isinstance(a.args[0], Rat):
+            q = _exact_div(a.args[0])
+            if is_int_valued(q):
+                return q
+        return None
+    return v.subst(f)
 
 
 def _allocation(ret):
